@@ -27,6 +27,13 @@ import (
 //	J id          exec helper sleep &b<id>& once more: the name is taken, the line fails, nothing is started
 //	H neg key     [!] exec key exit 0: a foreground command found (or not) on the script's own PATH
 //	I neg key sub [exec:key] sub  /  [!exec:key] sub
+//	L path key    symlink path -> target: the last segment of path is lnk<digit> (no other action of the
+//	              harness names such a segment, so links are never followed by the scripts themselves);
+//	              key says where the link points: a sentinel of the host (host-file, host-ro, host-x,
+//	              host-dir, host-rodir, host-inner), nowhere (dangling), the script's own files (own-file,
+//	              own-abs, own-dir, parent), a sibling's (sibling:<script>[:<path>])
+//	R path        rm path (removeAll: chmod pass, then RemoveAll)
+//	Q path data   a custom command creating a file and making it read-only (mode 0444)
 type Action struct {
 	Op   string  `json:"op"`
 	Path string  `json:"path,omitempty"`
@@ -138,8 +145,13 @@ func (b *Batch) validate() error {
 			if f.Work && !safeWorkName(f.Path) {
 				return fmt.Errorf("script %s: entry $WORK/%s refused (only flat %s* names may be $WORK-named)", s.Name, f.Path, escapePrefix)
 			}
-			if strings.HasPrefix(f.Path, "/") || strings.Contains(f.Path, "..") || strings.Contains(f.Path, "$") {
+			if strings.HasPrefix(f.Path, "/") || strings.Contains(f.Path, "..") || strings.Contains(f.Path, "$") || hasLinkSeg(f.Path) {
 				return fmt.Errorf("script %s: entry name %q refused", s.Name, f.Path)
+			}
+		}
+		for k := range s.Body {
+			if err := validateAction(&s.Body[k]); err != nil {
+				return fmt.Errorf("script %s: %v", s.Name, err)
 			}
 		}
 	}
@@ -202,8 +214,98 @@ func b01(b bool) string {
 	return "0"
 }
 
+var reLinkSeg = regexp.MustCompile(`^lnk[0-9]$`)
+var reLinkKey = regexp.MustCompile(`^(host-file|host-ro|host-x|host-dir|host-rodir|host-inner|dangling|own-file|own-abs|own-dir|parent|sibling:[a-z0-9]{1,20}(#[0-9]{1,3})?(:[a-z0-9./]{1,30})?)$`)
+
+func hasLinkSeg(p string) bool {
+	for _, seg := range strings.Split(p, "/") {
+		if reLinkSeg.MatchString(seg) {
+			return true
+		}
+	}
+	return false
+}
+
+// linkTarget is the target of the link as it is written in the script; @RUN@ stands for the scratch
+// directory of the run.
+func linkTarget(key string) string {
+	switch key {
+	case "host-file":
+		return "@RUN@/host/f644"
+	case "host-ro":
+		return "@RUN@/host/f444"
+	case "host-x":
+		return "@RUN@/host/x755"
+	case "host-dir":
+		return "@RUN@/host/dir"
+	case "host-rodir":
+		return "@RUN@/host/rodir"
+	case "host-inner":
+		return "@RUN@/host/rodir/inner"
+	case "dangling":
+		return "no-such-target"
+	case "own-file":
+		return "a.txt"
+	case "own-abs":
+		return "$WORK/a.txt"
+	case "own-dir":
+		return "$WORK/d"
+	case "parent":
+		return ".."
+	}
+	if rest, ok := strings.CutPrefix(key, "sibling:"); ok {
+		name, sub, has := strings.Cut(rest, ":")
+		if has && !strings.Contains(sub, "..") {
+			return "$WORK/../script-" + name + "/" + sub
+		}
+		return "$WORK/../script-" + name
+	}
+	return "no-such-target"
+}
+
+// linkTargetCanon: the target as the canonical renderings show it ($RUN for the scratch directory).
+func linkTargetCanon(key string) string { return strings.ReplaceAll(linkTarget(key), "@RUN@", "$RUN") }
+
+// validateAction: the naming discipline of links (see Action).
+func validateAction(a *Action) error {
+	switch a.Op {
+	case "L":
+		segs := strings.Split(a.Path, "/")
+		if a.Path == "" || !reLinkSeg.MatchString(segs[len(segs)-1]) || hasLinkSeg(strings.Join(segs[:len(segs)-1], "/")) || strings.Contains(a.Path, "..") || strings.HasPrefix(a.Path, "/") {
+			return fmt.Errorf("link name %q refused", a.Path)
+		}
+		if !reLinkKey.MatchString(a.Key) {
+			return fmt.Errorf("link target kind %q refused", a.Key)
+		}
+	case "R":
+		if a.Path == "" || strings.Contains(a.Path, "..") || strings.HasPrefix(a.Path, "/") || strings.Contains(a.Path, "$") {
+			return fmt.Errorf("rm %q refused", a.Path)
+		}
+		segs := strings.Split(a.Path, "/")
+		if hasLinkSeg(strings.Join(segs[:len(segs)-1], "/")) {
+			return fmt.Errorf("rm %q goes through a link name", a.Path)
+		}
+	case "I":
+		if a.Sub == nil {
+			return fmt.Errorf("guard without an action")
+		}
+		return validateAction(a.Sub)
+	default:
+		if hasLinkSeg(a.Path) {
+			return fmt.Errorf("%s %q names a link", a.Op, a.Path)
+		}
+	}
+	return nil
+}
+
 func (a *Action) modelTokens(out *[]string) {
 	switch a.Op {
+	case "L":
+		*out = append(*out, "L", pathTok(a.Path), hx(linkTargetCanon(a.Key)))
+	case "R":
+		*out = append(*out, "R", pathTok(a.Path))
+	case "Q":
+		*out = append(*out, "W", pathTok(a.Path), hx(a.Data)) // for the model: a file (it has no write bit for files)
 	case "W":
 		*out = append(*out, "W", pathTok(a.Path), hx(a.Data))
 	case "M":
@@ -325,6 +427,12 @@ func (a *Action) lines() []string {
 	switch a.Op {
 	case "W":
 		return []string{"wfile " + quoteArg(p) + " " + hex.EncodeToString([]byte(a.Data)) + "x"}
+	case "Q":
+		return []string{"rofile " + quoteArg(p) + " " + hex.EncodeToString([]byte(a.Data)) + "x"}
+	case "L":
+		return []string{"symlink " + quoteArg(p) + " -> " + linkTarget(a.Key)}
+	case "R":
+		return []string{"rm " + quoteArg(p)}
 	case "M":
 		if a.Flag && a.Path != "" {
 			// one line (MkdirAll, then Chmod 0555; a custom command), so that it fails as one unit
@@ -421,7 +529,7 @@ func (s *Script) archiveIn(rundir string, gated bool) []byte {
 			b.WriteString("gate\n")
 		}
 		for _, l := range s.Body[i].lines() {
-			b.WriteString(strings.ReplaceAll(l, "@OBS@", rundir+"/obs") + "\n")
+			b.WriteString(strings.ReplaceAll(strings.ReplaceAll(l, "@OBS@", rundir+"/obs"), "@RUN@", rundir) + "\n")
 		}
 	}
 	for _, f := range s.Files {
@@ -448,9 +556,27 @@ var filePool = []string{"a.txt", "d/b.txt", "d/e/c.txt", "bin/mytool", "x", "a.t
 var dirPool = []string{"d", "d/e", "n", "n/m", "bin", "z", ""}
 var progPool = []string{"sh", "nosuchprog-zz", "mytool", "helper", "b.txt", "hostcanary"}
 
+var linkPool = []string{"lnk0", "lnk1", "d/lnk2", "n/lnk3", "lnk0", "d/e/lnk4"}
+var linkKeys = []string{"host-file", "host-ro", "host-x", "host-dir", "host-rodir", "host-inner", "dangling", "own-file", "own-abs", "own-dir", "parent"}
+var rmPool = []string{"d", "n", "lnk0", "lnk1", "d/lnk2", "a.txt", "z", "n/m", "ro0.txt", "d/e", "n/lnk3", "bin", "w", "nope/x", "a.txt/x"}
+var siblingSubs = []string{"", "a.txt", "d", "ro0.txt", "n", "d/b.txt", "bin/mytool", "d/ro1.txt"}
+
 func genAction(r *common.RNG, st *genState, allowEnd bool, depth int) Action {
 	for {
-		switch k := r.Intn(23); {
+		switch k := r.Intn(28); {
+		case k >= 23 && k < 25:
+			key := common.Pick(r, linkKeys)
+			if len(st.sibs) > 0 && r.Chance(1, 2) {
+				key = "sibling:" + common.Pick(r, st.sibs)
+				if sub := common.Pick(r, siblingSubs); sub != "" {
+					key += ":" + sub
+				}
+			}
+			return Action{Op: "L", Path: common.Pick(r, linkPool), Key: key}
+		case k == 25 || k == 26:
+			return Action{Op: "R", Path: common.Pick(r, rmPool)}
+		case k == 27:
+			return Action{Op: "Q", Path: common.Pick(r, []string{"ro0.txt", "d/ro1.txt", "ro0.txt"}), Data: common.Pick(r, []string{"", "ro\n"})}
 		case k < 1:
 			// a foreground command by bare name: found on the script's PATH or not at all
 			return Action{Op: "H", Flag: r.Chance(1, 2), Key: common.Pick(r, []string{"hostcanary", "hostcanary", "nosuchprog-zz"})}
@@ -545,7 +671,8 @@ type genState struct {
 	nBg     int
 	nQuick  int
 	killed  bool
-	bgs     []genBg // the background commands the script has started and not yet waited for, in order
+	bgs     []genBg  // the background commands the script has started and not yet waited for, in order
+	sibs    []string // the names of the other scripts of the batch
 }
 
 // waitOutcome: what a status-checking wait over the list does: "ok" (all accepted: the list is
@@ -562,7 +689,7 @@ func (st *genState) waitOutcome() string {
 	return "ok"
 }
 
-func genScript(r *common.RNG, name string) Script {
+func genScript(r *common.RNG, name string, sibs []string) Script {
 	s := Script{Name: name}
 	nf := r.Intn(5)
 	for i := 0; i < nf; i++ {
@@ -580,7 +707,7 @@ func genScript(r *common.RNG, name string) Script {
 	if r.Chance(1, 8) {
 		s.Adds = append(s.Adds, KV{"HOME", "/other-home"})
 	}
-	st := &genState{}
+	st := &genState{sibs: sibs}
 	nd := r.Intn(3)
 	for i := 0; i < nd; i++ {
 		s.Defers = append(s.Defers, DeferSpec{ID: 100 + i, Bad: r.Chance(1, 15)})
@@ -613,7 +740,13 @@ func genBatch(r *common.RNG, canNonRoot bool) Batch {
 	b.ContinueOnError = r.Chance(1, 4)
 	n := 2 + r.Intn(7)
 	for i := 0; i < n; i++ {
-		b.Scripts = append(b.Scripts, genScript(r, fmt.Sprintf("s%d", i)))
+		var sibs []string
+		for j := 0; j < n; j++ {
+			if j != i {
+				sibs = append(sibs, fmt.Sprintf("s%d", j))
+			}
+		}
+		b.Scripts = append(b.Scripts, genScript(r, fmt.Sprintf("s%d", i), sibs))
 	}
 	// now and then script files with the same base name (in different directories), preceded by one
 	// whose base name already looks like a disambiguated name
@@ -626,8 +759,33 @@ func genBatch(r *common.RNG, canNonRoot bool) Batch {
 		}
 		bases[j], bases[j+1], bases[j+2] = x+"#1", x, x
 		names := uniqueNames(bases)
+		renamed := map[string]string{}
 		for i := range b.Scripts {
+			renamed[b.Scripts[i].Name] = names[i]
 			b.Scripts[i].Name, b.Scripts[i].Base = names[i], bases[i]
+		}
+		// links to siblings follow the new names
+		var fix func(a *Action)
+		fix = func(a *Action) {
+			if a.Op == "L" {
+				if rest, ok := strings.CutPrefix(a.Key, "sibling:"); ok {
+					nm, sub, has := strings.Cut(rest, ":")
+					if nn, ok := renamed[nm]; ok {
+						a.Key = "sibling:" + nn
+						if has {
+							a.Key += ":" + sub
+						}
+					}
+				}
+			}
+			if a.Sub != nil {
+				fix(a.Sub)
+			}
+		}
+		for i := range b.Scripts {
+			for k := range b.Scripts[i].Body {
+				fix(&b.Scripts[i].Body[k])
+			}
 		}
 	}
 	// now and then an archive entry whose name leaves the work directory
